@@ -12,7 +12,7 @@ RULE = ("envelopes and bare metadata (floats, non-ASCII, lone surrogates, deep n
         "step: file bytes vs the model's serialization and the independent serializer, loaded value vs in-memory value, earlier entries unchanged, and "
         "the verdicts of verify_signable (every threshold, both modes) before/after.  non-trivial = sequence with >= 1 added signature; distinct by (value, ops)")
 
-THEOREMS = ["load_write", "written_canonical", "cycles_preserve_bytes", "add_signature_preserves_others", "add_signature_keeps_counting"]
+THEOREMS = ["load_write", "written_canonical", "cycles_preserve_bytes", "add_signature_preserves_others", "add_signature_keeps_counting", "write_over_anything", "write_frame", "write_then_load", "signFile_frame"]
 
 
 def verdicts(impl, env, auth):
@@ -88,6 +88,7 @@ def run(ck: Check) -> None:
         for step, op in enumerate(ops):
             before_entries = copy.deepcopy(mem["signatures"])
             v_before = verdicts(impl, mem, auth)
+            listing_before = set(os.listdir(d))
             try:
                 if op == "write" or not on_disk:
                     impl.common.write_metadata_to_file(mem, fn)
@@ -273,6 +274,12 @@ def run(ck: Check) -> None:
                 break
             ck.evaluations += 1
             ck.count("fileop:" + op)
+            # a write / load / in-place signing touches the named file only (theorems write_frame, signFile_frame): nothing else appears next to it
+            strangers = sorted(set(os.listdir(d)) - listing_before - {os.path.basename(fn)})
+            ck.oracle_checks += 1
+            if strangers:
+                ck.violation("a file operation left another file next to the one it was asked to write (temporary / backup / partial sibling)", {"op": op, "appeared": strangers[:5]}, f"stray-file:{op}")
+                ok = False
             v_after = verdicts(impl, mem, auth)
             ck.oracle_checks += 1
             if op in ("write", "load"):
